@@ -13,7 +13,7 @@ func init() {
 	register(&propDef{
 		id: "C14", level: "proof", run: runC14,
 		explanation: "GF(2)-affine abstract interpretation of dyncrc16.updateByte from its SSA form: every bit of every intermediate value is an XOR of the 24 input bits (16 state, 8 data) and a constant; table loads are linear maps because crcTable is proven GF(2)-linear on its 4-bit index space and never written. The resulting 16x24 matrix is compared with the bit-serial reference step of CRC-16/ARC (reflected polynomial 0xA001, init 0), which settles all 65536x256 transitions; composing the matrix with itself on (c, lo(c)), (., hi(c)) gives the zero map (residue rule). Streaming interface: update is a left fold of updateByte in index order, the hash state is exactly one uint16, Write/Reset/Sum16/New/Checksum have the fold shapes, so any split of the data gives the same sum.",
-		trusted: []string{"transfer functions of the affine domain (checker/c14.go)", "Go semantics of range over a slice (index order)", "reference bit-serial CRC-16/ARC step in the checker"},
+		trusted:     []string{"transfer functions of the affine domain (checker/c14.go)", "Go semantics of range over a slice (index order)", "reference bit-serial CRC-16/ARC step in the checker"},
 	})
 }
 
@@ -210,13 +210,9 @@ func c14Table(c *Ctx) ([]uint16, string) {
 }
 
 func c14Interpret(c *Ctx, fn *ssa.Function, tbl []uint16) (avec, string) {
-	if len(fn.Blocks) != 1 {
-		return nil, fmt.Sprintf("updateByte has %d basic blocks; the affine interpretation needs straight-line code", len(fn.Blocks))
-	}
 	if len(fn.Params) != 2 {
 		return nil, "updateByte does not take (state, byte)"
 	}
-	env := map[ssa.Value]avec{}
 	w0 := int(width(basicOf(fn.Params[0].Type())))
 	w1 := int(width(basicOf(fn.Params[1].Type())))
 	if w0 != 16 || w1 != 8 {
@@ -230,8 +226,31 @@ func c14Interpret(c *Ctx, fn *ssa.Function, tbl []uint16) (avec, string) {
 	for i := range dt {
 		dt[i] = 1 << uint(16+i)
 	}
-	env[fn.Params[0]] = st
-	env[fn.Params[1]] = dt
+	a, e := c14InterpretFn(c, fn, []avec{st, dt}, tbl, 3)
+	if e == "" && len(a) != 16 {
+		return nil, "result is not 16 bits"
+	}
+	return a, e
+}
+
+// c14InterpretFn: GF(2)-affine abstract interpretation of a straight-line function over unsigned
+// integers; static calls to straight-line helpers of the same package are interpreted in place
+// (bounded depth), so the nibble step may be spelled inline or as a helper.
+func c14InterpretFn(c *Ctx, fn *ssa.Function, args []avec, tbl []uint16, depth int) (avec, string) {
+	if len(fn.Blocks) != 1 {
+		return nil, fmt.Sprintf("%s has %d basic blocks; the affine interpretation needs straight-line code", fn.Name(), len(fn.Blocks))
+	}
+	if len(fn.Params) != len(args) {
+		return nil, "arity of " + fn.Name()
+	}
+	env := map[ssa.Value]avec{}
+	for i, p := range fn.Params {
+		bb := basicOf(p.Type())
+		if bb == nil || bb.Info()&types.IsInteger == 0 || isSigned(bb) || int(width(bb)) != len(args[i]) {
+			return nil, fmt.Sprintf("parameter %s of %s is not an unsigned integer of the argument's width", p.Name(), fn.Name())
+		}
+		env[p] = args[i]
+	}
 	tblG := c.ssaGlobal(c.crc, "crcTable")
 	get := func(v ssa.Value) (avec, string) {
 		if k, ok := v.(*ssa.Const); ok {
@@ -385,10 +404,28 @@ func c14Interpret(c *Ctx, fn *ssa.Function, tbl []uint16) (avec, string) {
 			if e != "" {
 				return nil, e
 			}
-			if len(a) != 16 {
-				return nil, "result is not 16 bits"
-			}
 			return a, ""
+		case *ssa.Call:
+			callee := n.Common().StaticCallee()
+			if callee == nil || depth <= 0 || fnPkgPath(callee) != fnPkgPath(fn) || n.Common().IsInvoke() {
+				return nil, "call that cannot be interpreted in place at " + c.pos(n.Pos())
+			}
+			var as []avec
+			for _, a := range n.Common().Args {
+				v, e := get(a)
+				if e != "" {
+					return nil, e
+				}
+				as = append(as, v)
+			}
+			out, e := c14InterpretFn(c, callee, as, tbl, depth-1)
+			if e != "" {
+				return nil, e
+			}
+			if bb := basicOf(n.Type()); bb == nil || int(width(bb)) != len(out) {
+				return nil, "result width of " + callee.Name()
+			}
+			env[n] = out
 		default:
 			return nil, fmt.Sprintf("instruction %T is outside the GF(2)-affine domain at %s", ins, c.pos(ins.Pos()))
 		}
